@@ -13,23 +13,23 @@ structure InvA (s : St) : Prop where
   idle_only : s.c = .idle → s.p = .hdr ∨ s.p = .done false
   hdr_idle : s.p = .hdr → s.c = .idle ∧ s.failed = false ∧ s.wClosed = false ∧ s.rClosed = false
   wait_closed : s.p = .wait → s.wClosed = true
-  gz_state : s.p = .gz → s.c = .exited true ∧ s.failed = false ∧ s.gzip = true
-  done_true : s.p = .done true → s.c = .exited true ∧ s.failed = false
+  gz_state : s.p = .gz → s.c = .exited true ∧ s.failed = false ∧ s.gzip = true ∧ s.merr = false
+  done_true : s.p = .done true → s.c = .exited true ∧ s.failed = false ∧ s.merr = false
   done_quiet : ∀ b, s.p = .done b → s.c ≠ .run
   failed_state : s.failed = true → s.p = .done false ∨
-      (s.c = .exited false ∧ (isSend s.p = true ∨ s.p = .failW ∨ s.p = .closeW ∨ s.p = .wait))
+      (s.c = .exited false ∧ (isSend s.p = true ∨ s.p = .failW ∨ s.p = .closeW ∨ s.p = .failM ∨ s.p = .wait))
   exit_false_failed : s.c = .exited false → s.failed = true
   wclosed_p : s.wClosed = true → s.p = .wait ∨ s.p = .gz ∨ (∃ b, s.p = .done b)
   failW_closed : s.p = .failW → s.rClosed = true
 
-theorem invA_init (cs ls : List Nat) (k : Option Nat) (gz : Bool) : InvA (init cs ls k gz) := by
+theorem invA_init (cs ls : List Nat) (k : Option Nat) (gz : Bool) (m : Bool := false) : InvA (init cs ls k gz m) := by
   constructor <;> simp [init, isSend]
 
 set_option maxHeartbeats 1600000 in
 theorem invA_step (s s' : St) (a : Actor) (t : Nat) (hi : InvA s) (h : step s a t = some s') : InvA s' := by
   obtain ⟨i1, i2, i3, i4, i5, i6, i7, i8, i9, i10, i11, i12⟩ := hi
   unfold step at h
-  cases a <;> rcases hp : s.p with _ | (_ | _) | _ | _ | _ | _ | (_ | _) <;> rcases hc : s.c with _ | _ | (_ | _) <;>
+  cases a <;> rcases hp : s.p with _ | (_ | _) | _ | _ | _ | _ | (_ | _) | _ <;> rcases hc : s.c with _ | _ | (_ | _) <;>
     simp only [hp, hc] at h <;>
     (repeat' (split at h)) <;>
     first
@@ -41,14 +41,14 @@ theorem invA_step (s s' : St) (a : Actor) (t : Nat) (hi : InvA s) (h : step s a 
 /-- byte accounting; `T` = size of the document -/
 structure InvB (T : Nat) (s : St) : Prop where
   bytes : s.failed = false → s.delivered + s.pend + s.avail + s.cs.sum = T
-  quiet_pipe : s.p = .hdr ∨ s.p = .send false ∨ s.p = .closeW → s.avail = 0
-  closeW_empty : s.p = .closeW → s.cs = []
+  quiet_pipe : s.p = .hdr ∨ s.p = .send false ∨ s.p = .closeW ∨ s.p = .failM → s.avail = 0
+  closeW_empty : s.p = .closeW ∨ s.p = .failM → s.cs = []
   wclosed : s.wClosed = true → (s.cs = [] ∧ s.avail = 0) ∨ s.rClosed = true
   exit_true : s.c = .exited true → s.pend = 0 ∧ s.avail = 0 ∧ s.cs = []
   lines : s.failed = false → s.ls.sum ≤ s.pend + s.avail + s.cs.sum
 
-theorem invB_init (cs ls : List Nat) (k : Option Nat) (gz : Bool) (h : ls.sum ≤ cs.sum) :
-    InvB cs.sum (init cs ls k gz) := by
+theorem invB_init (cs ls : List Nat) (k : Option Nat) (gz : Bool) (h : ls.sum ≤ cs.sum) (m : Bool := false) :
+    InvB cs.sum (init cs ls k gz m) := by
   constructor <;> simp [init, h]
 
 set_option maxHeartbeats 3200000 in
@@ -57,7 +57,7 @@ theorem invB_step (T : Nat) (s s' : St) (a : Actor) (t : Nat) (ha : InvA s) (hi 
   obtain ⟨a1, a2, a3, a4, a5, a6, a7, a8, a9, a10, a11, a12⟩ := ha
   obtain ⟨b1, b2, b3, b4, b5, b6⟩ := hi
   unfold step at h
-  cases a <;> rcases hp : s.p with _ | (_ | _) | _ | _ | _ | _ | (_ | _) <;> rcases hc : s.c with _ | _ | (_ | _) <;>
+  cases a <;> rcases hp : s.p with _ | (_ | _) | _ | _ | _ | _ | (_ | _) | _ <;> rcases hc : s.c with _ | _ | (_ | _) <;>
     simp only [hp, hc] at h <;>
     (repeat' (split at h)) <;>
     first
